@@ -151,6 +151,9 @@ class err_handler(object):
         #logger.debug('add_isa loop')
         self.children.append(err_isa(self, seg_data, src))
         self.cur_isa_node = self.children[-1]
+        # a new interchange has no current group or transaction set
+        self.cur_gs_node = None
+        self.cur_st_node = None
         self.cur_seg_node = self.cur_isa_node
         self.seg_node_added = True
 
@@ -163,6 +166,8 @@ class err_handler(object):
         parent = self.cur_isa_node
         parent.children.append(err_gs(parent, seg_data, src))
         self.cur_gs_node = parent.children[-1]
+        # a new group has no current transaction set (the last set of an earlier group may never have been closed)
+        self.cur_st_node = None
         self.cur_seg_node = self.cur_gs_node
         self.seg_node_added = True
 
@@ -206,7 +211,7 @@ class err_handler(object):
         """
         """
         #pdb.set_trace()
-        if not self.seg_node_added:
+        if not self.seg_node_added and self.cur_st_node is not None:
             self.cur_st_node.children.append(self.cur_seg_node)
             self.seg_node_added = True
 
